@@ -148,6 +148,15 @@ func (e *Engine) callFn(s *State, fr *Frame, fn *ssa.Function, args, bind []Valu
 	if in := lookupIntrinsic(key); in != nil {
 		return e.runIntrinsic(s, fr, key, in, args, res, pos, fn)
 	}
+	if ov, ok := s.W.Ghost["override:"+key]; ok && s.InitMode == 0 {
+		// harness-declared cut: the callee is replaced by the harness's stub (recorded in the evidence)
+		f := ov.(*FuncV)
+		e.mu.Lock()
+		e.IntrUsed["override:"+key]++
+		e.mu.Unlock()
+		e.pushFrame(s, f.Fn, args, f.Bind, res)
+		return nil
+	}
 	if s.InitMode > 0 && fn.Name() == "init" && fn.Pkg != nil && fn.Signature.Recv() == nil && fn.Pkg.Func("init") == fn {
 		// dependency initialisers run lazily on first touch of their globals
 		fr.PC++
